@@ -277,6 +277,7 @@ def table(ck, rule, fn, start, atoms, leaf_of, want, classify, what, stop=(), pu
     """fold fn under every assignment of `atoms` ({name: domain of representatives}) and compare classify(outcome) with want(assignment)
     (a class or a set of classes); one aggregated verdict per table"""
     names = sorted(atoms)
+    ck.stats["functions"].add(fn.full)
     bad, n = [], 0
     for vals in product(*[atoms[k] for k in names]):
         asg = dict(zip(names, vals))
@@ -287,7 +288,7 @@ def table(ck, rule, fn, start, atoms, leaf_of, want, classify, what, stop=(), pu
         w = want(asg)
         if not (got == w or (isinstance(w, (set, frozenset, tuple)) and got in w)):
             bad.append("[%s]: code %s, reference %s" % (",".join("%s=%s" % (k, asg[k]) for k in names), got, w))
-    ck.need(n >= 2, "%s: decision table degenerate" % what)
+    ck.need(n >= 1, "%s: decision table has no row" % what)
     if bad:
         ck.violation(rule, "%s|%s|table-mismatch" % (rule.split(".")[0], what), fn.where(), "%s deviates from the reference decision table on %d of %d rows, e.g. %s"
                      % (what, len(bad), n, "; ".join(bad[:4])))
